@@ -339,7 +339,12 @@ func (a *c16Acc) Root() []byte {
 		e["intact"] = a.arenaIntact() // Root joins the retained sub-tree sums
 	}
 	a.emit(e)
-	return root
+	// the reply is the caller's: overwrite it (the tree goes on being used and must not have kept it as a node)
+	keep := c16clone(root)
+	for i := range root {
+		root[i] ^= 0xa5
+	}
+	return keep
 }
 
 func c16putU64(e Ev, key string, v uint64) {
@@ -373,6 +378,14 @@ func (a *c16Acc) prove(hold bool) bool {
 		e["intact"] = a.arenaIntact()
 	}
 	a.emit(e)
+	if !hold {
+		// as for Root (documented to be a copy): the root of the reply, recorded above as a deep copy, is the caller's to
+		// overwrite. The proof set is not touched: Prove hands out the stored sibling hashes themselves and does not promise
+		// otherwise.
+		for i := range root {
+			root[i] ^= 0x5a
+		}
+	}
 	return ps != nil
 }
 
